@@ -48,6 +48,7 @@ def run(ctx):
     pinned(ctx)
     if os.environ.get("VERIF_ONLY_PINNED"):
         return
+    directed_virtual_layouts(ctx)
     concurrent_views(ctx, 300 if quick else 30000)
     # directed: a conftest that only re-exports (defines nothing itself); the import-only edit inside one() removes one
     # of its imports, after which the cached per-file view must follow the navigation features
@@ -87,6 +88,53 @@ def run(ctx):
             except Exception:
                 pass
         one(ctx, os.path.join(root, "p"), files, {os.path.relpath(k, root): v for k, v in files.items()}, generated=False, spec="test_project")
+
+
+def directed_virtual_layouts(ctx):
+    """library level, documents that exist only as editor buffers: (1) a conftest.py in the file-system root directory;
+    (2) a never-saved conftest.py that was closed again (its text left the cache, its records stay) below an outer conftest
+    that defines the same name.  For every name the per-file view's entry and go-to-definition from a usage must name the
+    same definition (or both none)."""
+    from ..vh import VH
+    from ..runner import vh_bin
+    one_fx = lambda n, v: f"import pytest\n\n@pytest.fixture\ndef {n}():\n    return {v}\n\n"
+    scen = []
+    t1 = "def test_r(root_fx, nowhere_fx):\n    pass\n"
+    scen.append(("conftest_in_the_filesystem_root", [("analyze", "/conftest.py", one_fx("root_fx", 1)), ("analyze", "/zz_c05_tests/test_root.py", t1)],
+                 "/zz_c05_tests/test_root.py", t1, ["root_fx", "nowhere_fx"]))
+    scen.append(("conftest_in_the_filesystem_root_deeper", [("analyze", "/conftest.py", one_fx("root_fx", 1)), ("analyze", "/zz_c05_tests/a/b/test_root.py", t1)],
+                 "/zz_c05_tests/a/b/test_root.py", t1, ["root_fx", "nowhere_fx"]))
+    t2 = "def test_m(mem_fx, outer_only):\n    pass\n"
+    outer = one_fx("mem_fx", 0) + "@pytest.fixture\ndef outer_only():\n    return 0\n"
+    for close_outer in (False, True):
+        steps = [("analyze", "/vf_c05b/conftest.py", outer), ("analyze", "/vf_c05b/pkg/conftest.py", one_fx("mem_fx", 1)),
+                 ("analyze", "/vf_c05b/pkg/test_m.py", t2), ("available", "/vf_c05b/pkg/test_m.py", None),
+                 ("close", "/vf_c05b/pkg/conftest.py", None)] + ([("close", "/vf_c05b/conftest.py", None)] if close_outer else [])
+        scen.append(("unsaved_conftest_closed" + ("_outer_closed_too" if close_outer else ""), steps, "/vf_c05b/pkg/test_m.py", t2, ["mem_fx", "outer_only"]))
+    vh = VH(vh_bin(), locklog=os.path.join(ctx.scratch_root, "lock_vh.log"))
+    try:
+        for name, steps, probe, text, names in scen:
+            db = vh.new_db()
+            for op, path, txt in steps:
+                if op == "analyze":
+                    vh.call(op="analyze", db=db, path=path, text=txt)
+                else:
+                    vh.call(op=op, db=db, path=path)
+            av = vh.call(op="available", db=db, path=probe)["available"]
+            for n in names:
+                col = text.index(n)
+                g = vh.call(op="goto", db=db, path=probe, line=0, char=col).get("target")
+                target = (g["file"], g["line"]) if g else None
+                view = [(a["file"], a["line"]) for a in av if a["name"] == n]
+                ctx.judged()
+                if view != ([target] if target else []):
+                    ctx.violation({"kind": "view-and-navigation-disagree", "scenario": name, "name": n},
+                                  {"view_entry": view, "definition": target, "steps": [(o, p_) for o, p_, _ in steps]})
+                if target:
+                    ctx.nontrivial(("directed_virtual", name, n))
+            vh.call(op="drop_db", db=db)
+    finally:
+        vh.close()
 
 
 def concurrent_views(ctx, count):
